@@ -31,7 +31,7 @@ theorem convWith_last {α : Type} (scan : List Char → Scan α) (sep pre t : Li
 
 /-- `mpt_iterator_consume(…, 'd', …)` takes a number token and moves behind its separator -/
 theorem consumeD_mid (sep pre t : List Char) (c : Char) (rest : List Char) (v : Rat) (h : strictNumber t = some v)
-    (hs : SepChar c) :
+    (hs : SepChar c) (hr : NoLeadSpace rest) :
     (Src.str (atPos sep (pre ++ (t ++ c :: rest)) pre.length)).consumeD =
       (.str (atPos sep ((pre ++ t ++ [c]) ++ rest) (pre ++ t ++ [c]).length), .ok v) := by
   have hst : Stops (c :: rest) := by intro x hx; simp at hx; subst hx; exact hs
@@ -43,7 +43,11 @@ theorem consumeD_mid (sep pre t : List Char) (c : Char) (rest : List Char) (v : 
   rw [convWith_mid cdouble sep pre t c rest v (cdouble_strict t _ v h hst) (strict_dropSpace t _ v h)
     (strict_ne_nil t v h)]
   simp only []
-  rw [advance_mid sep _ _ _ hlt]
+  have hnl : NoLeadSpace ((pre ++ (t ++ c :: rest)).drop (pre.length + t.length + 1)) := by
+    have e : pre ++ (t ++ c :: rest) = (pre ++ t ++ [c]) ++ rest := by simp
+    have l : pre.length + t.length + 1 = (pre ++ t ++ [c]).length := by simp; omega
+    rw [e, l, List.drop_left]; exact hr
+  rw [advance_mid sep _ _ _ hlt hnl]
   simp only []
   have htxt : pre ++ (t ++ c :: rest) = (pre ++ t ++ [c]) ++ rest := by simp
   have hpos : pre.length + t.length + 1 = (pre ++ t ++ [c]).length := by simp; omega
@@ -89,7 +93,7 @@ theorem count_dropSpace (n rest : List Char) (k : Nat) (h : strictCount n = some
 
 /-- `mpt_iterator_consume(…, 'u', …)` takes a count token and moves behind its separator -/
 theorem consumeU_mid (sep pre n : List Char) (c : Char) (rest : List Char) (k : Nat) (h : strictCount n = some k)
-    (hc : isDigit c = false) :
+    (hc : isDigit c = false) (hr : NoLeadSpace rest) :
     (Src.str (atPos sep (pre ++ (n ++ c :: rest)) pre.length)).consumeU =
       (.str (atPos sep ((pre ++ n ++ [c]) ++ rest) (pre ++ n ++ [c]).length), .ok k) := by
   have hlt : pre.length < (pre ++ (n ++ c :: rest)).length := by simp; omega
@@ -101,7 +105,11 @@ theorem consumeU_mid (sep pre n : List Char) (c : Char) (rest : List Char) (k : 
   simp only [Bool.not_true, Bool.false_eq_true, ↓reduceIte]
   rw [convWith_mid cuint32 sep pre n c rest k hu hd hne]
   simp only []
-  rw [advance_mid sep _ _ _ hlt]
+  have hnl : NoLeadSpace ((pre ++ (n ++ c :: rest)).drop (pre.length + n.length + 1)) := by
+    have e : pre ++ (n ++ c :: rest) = (pre ++ n ++ [c]) ++ rest := by simp
+    have l : pre.length + n.length + 1 = (pre ++ n ++ [c]).length := by simp; omega
+    rw [e, l, List.drop_left]; exact hr
+  rw [advance_mid sep _ _ _ hlt hnl]
   simp only []
   have htxt : pre ++ (n ++ c :: rest) = (pre ++ n ++ [c]) ++ rest := by simp
   have hpos : pre.length + n.length + 1 = (pre ++ n ++ [c]).length := by simp; omega
@@ -117,9 +125,9 @@ theorem linFromIter_text (sep n ta tb : List Char) (c1 c2 : Char) (k : Nat) (va 
       = atPos sep ([] ++ (n ++ c1 :: (ta ++ c2 :: tb))) ([] : List Char).length := rfl
   rw [hcreate]
   unfold linFromIter
-  rw [consumeU_mid sep [] n c1 _ k hn h1.1]
+  rw [consumeU_mid sep [] n c1 _ k hn h1.1 (strict_noLead ta _ va ha)]
   simp only [rangeSet]
-  rw [consumeD_mid sep ([] ++ n ++ [c1]) ta c2 tb va ha h2]
+  rw [consumeD_mid sep ([] ++ n ++ [c1]) ta c2 tb va ha h2 (by have := strict_noLead tb [] vb hb; simpa using this)]
   simp only []
   rw [consumeD_last sep (([] ++ n ++ [c1]) ++ ta ++ [c2]) tb vb hb]
 
@@ -133,7 +141,7 @@ theorem facFromIter_text2 (sep n tb : List Char) (c1 : Char) (k : Nat) (vb : Rat
   rw [hcreate]
   have hlt := (cuint32_strict n (c1 :: tb) k hn (by intro x hx; simp at hx; subst hx; exact h1.1)).2
   unfold facFromIter
-  rw [consumeU_mid sep [] n c1 _ k hn h1.1]
+  rw [consumeU_mid sep [] n c1 _ k hn h1.1 (by have := strict_noLead tb [] vb hb; simpa using this)]
   simp only []
   rw [if_neg (by omega)]
   rw [consumeD_last sep ([] ++ n ++ [c1]) tb vb hb]
